@@ -49,6 +49,7 @@ def main():
             return 2
         env = dict(os.environ, PYTHONPATH=wt + os.pathsep + "/tmp/shims_eval", PYTHONDONTWRITEBYTECODE="1", QAPTOOLS_BIN=os.path.join(ROOT, "shims", "qaptools-bin"))
         env["PYTHONPATH"] = wt        # exactly the environment the demonstration was written for
+        env.pop("QAPTOOLS_BIN", None)
         demo = os.path.join(seed, "demo.py")
         shutil.copy(demo, os.path.join(wt, "demo.py"))
         for extra in os.listdir(seed):
